@@ -66,6 +66,10 @@ func VH_C01_VerifyAPREQ() {
 		a.Ticket.DecryptedEncPart.CName = vhName(1, 1)
 		a.Ticket.DecryptedEncPart.CRealm = zzverif.String(1)
 		a.Ticket.DecryptedEncPart.EndTime = zzverif.AnyTime()
+		// ... including elements that are OPTIONAL in the sealed part (a decoder leaves them alone when absent)
+		a.Ticket.DecryptedEncPart.StartTime = zzverif.AnyTime()
+		a.Ticket.DecryptedEncPart.RenewTill = zzverif.AnyTime()
+		a.Ticket.DecryptedEncPart.CAddr = types.HostAddresses{{AddrType: zzverif.Int32(), Address: zzverif.Bytes(1)}}
 		a.Authenticator.CName = vhName(1, 1)
 		a.Authenticator.CRealm = zzverif.String(1)
 	}
@@ -103,6 +107,14 @@ func VH_C01_VerifyAPREQ() {
 		tktDecoded = zzverif.CallOK("EncTicketPart).Unmarshal", 0)
 	}
 	tk := a.Ticket.DecryptedEncPart
+	if tktDecoded {
+		// what the KDC sealed: the plaintext the verifier decoded, decoded once more into a fresh value
+		// (the same bytes decode to the same value; nothing the request brought along can show through)
+		var sealed messages.EncTicketPart
+		if sealed.Unmarshal(zzverif.CallArg("EncTicketPart).Unmarshal", 0, 1).([]byte)) == nil {
+			tk = sealed
+		}
+	}
 	if nDec >= 2 {
 		authAuth = zzverif.CallOK("crypto.DecryptEncPart", 1)
 		ed := zzverif.CallArg("crypto.DecryptEncPart", 1, 0).(types.EncryptedData)
